@@ -672,6 +672,7 @@ fn gen_pool(r: &mut Rng, g: &mut ExprGen, w: &World, api: bool) -> Pool {
         let want = match templates.len() { 0 => p && !rs, 1 => !p && rs, 2 => p && rs, _ => !api || p || rs };
         if want && parse_tpl("x", &t).is_some() && !templates.contains(&t) { templates.push(t); }
     }
+    if templates.is_empty() { templates.push("permit(principal == ?principal, action, resource);".to_string()); }
     Pool { statics, templates }
 }
 
